@@ -25,6 +25,14 @@ def handlerOf? (j : Json) : Option Handler := do
   let d ← jBool? (← jField? j "deleted")
   some ⟨r, i, d⟩
 
+/-- the general shape (sub-handlers included): all four keys are required -/
+def shapeOf? (j : Json) : Option Shape := do
+  let r ← jOpt? (fun x => jStr? x >>= reasonOf?) (← jField? j "reason")
+  let i ← jBool? (← jField? j "initial")
+  let d ← jBool? (← jField? j "deleted")
+  let n ← jBool? (← jField? j "needs_change")
+  some ⟨r, i, d, n⟩
+
 def causeOf? (j : Json) : Option Cause := do
   let r ← jStr? (← jField? j "reason") >>= reasonOf?
   let i ← jBool? (← jField? j "initial")
@@ -38,13 +46,35 @@ def handle : DrvHandler := fun op args =>
       let c := detect i
       some (ok (Json.mkObj [("reason", .str (reasonStr c.reason)), ("initial", .bool c.initial)]))
   | "C05.gate", [h, c] => do
+      let h ← shapeOf? h
+      let c ← causeOf? c
+      some (ok (.bool (gateS h c)))
+  -- the top-level view (three keys; what C14/C03 use) next to the shape it stands for
+  | "C05.gateTop", [h, c] => do
       let h ← handlerOf? h
       let c ← causeOf? c
-      some (ok (.bool (gate h c)))
+      some (ok (Json.mkObj [("gate", .bool (gate h c)), ("needs_change", .bool h.shape.needsChange)]))
   | "C05.invocable", [h, i] => do
-      let h ← handlerOf? h
+      let h ← shapeOf? h
       let i ← inOf? i
-      some (ok (.bool (invocable h i)))
+      some (ok (.bool (invocableS h i)))
+  | "C05.gateOld", [h, c] => do
+      let h ← shapeOf? h
+      let c ← causeOf? c
+      some (ok (.bool (gateOld h c)))
+  | "C05.decorated", [h] => do
+      let h ← shapeOf? h
+      some (ok (.bool (decorated h)))
+  -- ["C05.sub", parent, "inherit"|"plain", In] → the sub-handler's shape and whether it is invocable
+  | "C05.sub", [p, how, i] => do
+      let p ← shapeOf? p
+      let i ← inOf? i
+      let s ← match ← jStr? how with
+        | "inherit" => some (subOf p)
+        | "plain" => some plainSub
+        | _ => none
+      some (ok (Json.mkObj [("needs_change", .bool s.needsChange), ("parent", .bool (invocableS p i)),
+                            ("sub_gate", .bool (gateS s (detect i))), ("sub", .bool (subInvocable p s i))]))
   | _, _ => none
 
 end Kopf.Drv.C05
